@@ -42,7 +42,7 @@ func (c15) Info() core.Info {
 		Level: "exploration",
 		Rule: "all well-typed expression trees with <= 3 (thorough: 4) binary operators over every operator (| or & and = != ^= ~= > >= < <= in between + - * /), unary !, calls and [n] chains on typed leaves; each tree is rendered with minimal parentheses (documented precedence table, left associativity), fully parenthesised, with one redundant pair around every sub-tree in turn, and with lower / UPPER / Capitalised keywords and word operators. " +
 			"Oracle: the parsed AST (exported node fields) equals the generating tree for every rendering; Expression.String() of the parsed expression re-parses to the same tree; the filter text shown by Explain() re-parses to the tree of the filter the scan node executes. Non-trivial: the minimal rendering needs fewer parentheses than the full one. Distinct: the query text.",
-		Assumptions: []string{"only well-typed trees can be observed (the checker runs inside Parse)", "literals contain no quote characters (the language has no escape)"},
+		Assumptions: []string{"only well-typed trees can be observed (the checker runs inside Parse); the generator avoids the two shapes the engine refuses for reasons outside this property (a `!` operand of a comparison, the same field on both sides of a comparison), so every generated tree must be accepted and a rejection is a violation", "literals contain no quote characters (the language has no escape)"},
 	}
 }
 
@@ -243,6 +243,11 @@ func (g *c15Gen) trees(t byte, n int) []*ref.Expr {
 	add := func(op string, lt, rt byte, nl int) {
 		for _, l := range g.trees(lt, nl) {
 			for _, r := range g.trees(rt, n-1-nl) {
+				if ref.Prec(op) == 3 && (l.K == "not" || r.K == "not" || (l.K == "key" && r.K == "key")) {
+					// engine quirks outside this property: a comparison refuses a
+					// `!` operand and the same field on both sides
+					continue
+				}
 				out = append(out, ref.Bin(op, l, r))
 			}
 		}
@@ -320,6 +325,9 @@ func (g *c15Gen) treesNoUnary(t byte, n int) []*ref.Expr {
 	add := func(op string, lt, rt byte, nl int) {
 		for _, l := range g.trees(lt, nl) {
 			for _, r := range g.trees(rt, n-1-nl) {
+				if ref.Prec(op) == 3 && (l.K == "not" || r.K == "not" || (l.K == "key" && r.K == "key")) {
+					continue
+				}
 				out = append(out, ref.Bin(op, l, r))
 			}
 		}
@@ -429,7 +437,10 @@ func c15Judge(c *c15Case) (fails []core.Failure, status string, evals int) {
 		return []core.Failure{mk("parse-vs-tree", "panic", want, pan)}, "", evals
 	}
 	if err != nil {
-		return nil, "rejected", evals
+		// every generated tree is well typed under the documented precedence
+		// (the generator avoids the engine's two known refusals): a rejection
+		// means the text was parsed into a different, ill-typed tree
+		return []core.Failure{mk("parse-vs-tree", "well-typed-tree-rejected", want, "rejected: "+strings.ReplaceAll(err.Error(), "\n", " "))}, "", evals
 	}
 	got := canonTree(fromKvql(e))
 	if got != want {
